@@ -90,7 +90,7 @@ def main():
     if ok_mut or "--keep" in args:
         os.makedirs(dst, exist_ok=True)
         for f in ("patch.diff", "demo.py", "notes.md"):
-            if os.path.exists(os.path.join(src, f)):
+            if os.path.exists(os.path.join(src, f)) and os.path.realpath(src) != os.path.realpath(dst):
                 shutil.copy(os.path.join(src, f), os.path.join(dst, f))
         old = {}
         mp = os.path.join(dst, "meta.json")
